@@ -304,6 +304,13 @@ class Effects:
             if isinstance(st, ast.Assign):
                 r = roots(st.value)
                 for t in st.targets:
+                    if isinstance(t, (ast.Tuple, ast.List)) and isinstance(st.value, (ast.Tuple, ast.List)) and len(t.elts) == len(st.value.elts) \
+                            and not any(isinstance(x, ast.Starred) for x in list(t.elts) + list(st.value.elts)):
+                        # a, b = x, y: each name is bound to ITS element (the tuple display itself is new, what it unpacks to is not)
+                        for te, ve in zip(t.elts, st.value.elts):
+                            bind_target(te, roots(ve), ve)
+                            store(te, st.lineno, "assigns")
+                        continue
                     bind_target(t, r, st.value)
                     store(t, st.lineno, "assigns")
             elif isinstance(st, ast.AnnAssign) and st.value is not None:
